@@ -1,3 +1,5 @@
+import re
+
 from mindsdb_sql.parser.ast.base import ASTNode
 from mindsdb_sql.exceptions import ParsingException
 from mindsdb_sql.parser.utils import indent
@@ -93,8 +95,15 @@ class Function(Operation):
         distinct_str = 'DISTINCT ' if self.distinct else ''
 
         from_str = f' FROM {self.from_arg.to_string()}' if self.from_arg else ''
-        namespace = self.namespace + '.' if self.namespace else ''
-        return f'{namespace}{self.op}({distinct_str}{args_str}{from_str})'
+        namespace = self.name_to_string(self.namespace) + '.' if self.namespace else ''
+        return f'{namespace}{self.name_to_string(self.op)}({distinct_str}{args_str}{from_str})'
+
+    @staticmethod
+    def name_to_string(name):
+        # a function name that is not a plain word (`a b`, `x.y`, `1st`) was written in back-quotes and needs them again
+        if isinstance(name, str) and not re.fullmatch(r'[A-Za-z_$][A-Za-z_$0-9]*', name) and '`' not in name:
+            return f'`{name}`'
+        return name
 
 
 class WindowFunction(ASTNode):
